@@ -453,6 +453,23 @@ class IRGenerator:
                             item.lineno, item.path)
                     env[item.target] = imported_env
 
+    @staticmethod
+    def _already_defined_error(item, existing):
+        """
+        The spec error for redefining a symbol. The existing symbol may be a
+        builtin type, an imported namespace or a group of routes, none of
+        which has a location.
+        """
+        ast_node = getattr(existing, '_ast_node', None)
+        if ast_node is None:
+            return InvalidSpec(
+                'Symbol %s already defined.' % quote(item.name),
+                item.lineno, item.path)
+        return InvalidSpec(
+            'Symbol %s already defined (%s:%d).' %
+            (quote(item.name), ast_node.path, ast_node.lineno),
+            item.lineno, item.path)
+
     def _create_alias(self, env, item):
         # NOTE: I don't like supporting forward references for aliases
         # because it makes specs harder to read. But we have to so that if a
@@ -460,10 +477,7 @@ class IRGenerator:
         # in the command line which affects alias ordering is irrelevant.
         if item.name in env:
             existing_dt = env[item.name]
-            raise InvalidSpec(
-                'Symbol %s already defined (%s:%d).' %
-                (quote(item.name), existing_dt._ast_node.path,
-                existing_dt._ast_node.lineno), item.lineno, item.path)
+            raise self._already_defined_error(item, existing_dt)
 
         namespace = self.api.ensure_namespace(env.namespace_name)
         alias = Alias(item.name, namespace, item)
@@ -474,10 +488,7 @@ class IRGenerator:
     def _create_annotation(self, env, item):
         if item.name in env:
             existing_dt = env[item.name]
-            raise InvalidSpec(
-                'Symbol %s already defined (%s:%d).' %
-                (quote(item.name), existing_dt._ast_node.path,
-                existing_dt._ast_node.lineno), item.lineno, item.path)
+            raise self._already_defined_error(item, existing_dt)
 
         namespace = self.api.ensure_namespace(env.namespace_name)
 
@@ -514,10 +525,7 @@ class IRGenerator:
     def _create_annotation_type(self, env, item):
         if item.name in env:
             existing_dt = env[item.name]
-            raise InvalidSpec(
-                'Symbol %s already defined (%s:%d).' %
-                (quote(item.name), existing_dt._ast_node.path,
-                existing_dt._ast_node.lineno), item.lineno, item.path)
+            raise self._already_defined_error(item, existing_dt)
 
         namespace = self.api.ensure_namespace(env.namespace_name)
 
@@ -561,10 +569,7 @@ class IRGenerator:
         """Create a forward reference for a union or struct."""
         if item.name in env:
             existing_dt = env[item.name]
-            raise InvalidSpec(
-                'Symbol %s already defined (%s:%d).' %
-                (quote(item.name), existing_dt._ast_node.path,
-                 existing_dt._ast_node.lineno), item.lineno, item.path)
+            raise self._already_defined_error(item, existing_dt)
         namespace = self.api.ensure_namespace(env.namespace_name)
         if isinstance(item, AstStructDef):
             try:
@@ -1284,11 +1289,7 @@ class IRGenerator:
                         item.lineno, item.path)
             else:
                 existing_dt = env[item.name]
-                raise InvalidSpec(
-                    'Symbol %s already defined (%s:%d).' % (
-                        quote(item.name), existing_dt._ast_node.path,
-                        existing_dt._ast_node.lineno),
-                    item.lineno, item.path)
+                raise self._already_defined_error(item, existing_dt)
         else:
             env[item.name] = ApiRoutesByVersion()
 
